@@ -49,6 +49,7 @@ fn atom_items(ctx: &Ctx) -> Vec<Item> {
     let all = c01::all_items();
     let stride = if ctx.thorough() { 1 } else { 3 };
     let mut out = crate::holders::items();
+    out.extend(crate::transit::items());
     for (i, it) in all.into_iter().enumerate() {
         let op_matrix = it.id.starts_with("bin.") || it.id.starts_with("un.") || it.id.starts_with("conv.") || it.id.starts_with("math.");
         if op_matrix {
@@ -339,7 +340,7 @@ impl Check for C02 {
             let p = corpus::b_program(parts[1].parse().unwrap_or(0), parts[2].parse().unwrap_or(0));
             run_unit_progs(&mut r, &[Prog { ids: vec![p.id.clone()], src: p.src.clone(), batch: false, path: None, modules: Default::default() }], true, &|id: &str| id.to_string());
         } else {
-            let items: Vec<Item> = c01::all_items().into_iter().chain(crate::holders::items()).filter(|i| ids.contains(&i.id)).collect();
+            let items: Vec<Item> = c01::all_items().into_iter().chain(crate::holders::items()).chain(crate::transit::items()).filter(|i| ids.contains(&i.id)).collect();
             let prog = Prog { ids: items.iter().map(|i| i.id.clone()).collect(), src: c01::batch_program(&items), batch: true, path: None, modules: Default::default() };
             run_unit_progs(&mut r, &[prog], items.len() == 1, &atom_family);
         }
@@ -361,6 +362,7 @@ fn async_unit(r: &mut UnitResult, k: usize) {
         .iter()
         .map(|(n, b)| (format!("await.{}", n), *b))
         .chain(asynchost::CONCURRENT_ATOMS.iter().map(|(n, b)| (format!("concurrent.{}", n), *b)))
+        .chain(crate::transit::ASYNC_TRANSIT.iter().map(|(n, b)| (format!("transit.{}", n), *b)))
         .collect();
     let mine: Vec<(String, &'static str)> = atoms.into_iter().enumerate().filter(|(i, _)| i % ASYNC_UNITS == k).map(|(_, a)| a).collect();
     let lim = Limits { wall: std::time::Duration::from_secs(400), address_space: 3 << 30, stack: 0 };
